@@ -49,6 +49,7 @@ union U%s = O
 type Query {
   f(x: I%s, y: Tag): Tag%s
   g(y: Tag%s): Tag
+  d(x: I = {a: "v"}%s): Tag
   o: O
   os: [O]
   n: N
@@ -59,7 +60,7 @@ schema%s { query: Query }
 """ % ("\n".join("directive @t%d(id: String!) on %s" % (k + 1, ALL_LOCATIONS) for k in range(NDIR)),
        d("SCALAR"), d("ENUM"), d("ENUM_VALUE"), d("INPUT_OBJECT"), d("INPUT_FIELD_DEFINITION"), d("INTERFACE"), d("OBJECT"),
        d("ARGUMENT_DEFINITION"), d("UNION"),
-       d("ARGUMENT_DEFINITION"), d("FIELD_DEFINITION"), d("ARGUMENT_DEFINITION"), d("SCHEMA"))
+       d("ARGUMENT_DEFINITION"), d("FIELD_DEFINITION"), d("ARGUMENT_DEFINITION"), d("ARGUMENT_DEFINITION"), d("SCHEMA"))
 
 
 def tag_value(v, mark):
@@ -152,6 +153,11 @@ def build(p):
         harness.scenario_of(ctx).events.append(("resolver", "g", "call"))
         return render(args.get("y"))
 
+    @Resolver("Query.d", schema_name=name)
+    async def rd(parent, args, ctx, info):
+        harness.scenario_of(ctx).events.append(("resolver", "d", "call"))
+        return render(args.get("x"))
+
     @Resolver("Query.en", schema_name=name)
     async def ren(parent, args, ctx, info):
         harness.scenario_of(ctx).events.append(("resolver", "en", "call"))
@@ -202,19 +208,21 @@ def expected(p, req):
     I = lambda loc: ids(p, loc)  # noqa: E731
     kind = req["kind"]
     q = req.get("query_dirs", [])
-    if kind in ("x-literal", "x-variable", "x-nested-variable"):
+    if kind in ("x-literal", "x-variable", "x-nested-variable", "x-default"):
+        fname = req.get("field", "f")
+        fdirs = I("FIELD_DEFINITION") if fname == "f" else []
         leaf = compose("T:v", I("SCALAR"))
         leaf = compose(leaf, I("INPUT_FIELD_DEFINITION"))
         obj = compose({"a": leaf}, I("INPUT_OBJECT"))
         obj = compose(obj, I("ARGUMENT_DEFINITION"))
         r = render(obj)
-        for i in reversed(q + I("FIELD_DEFINITION")):
+        for i in reversed(q + fdirs):
             r = tag_value(r, "|%s>" % i)
         out = "out:" + compose(r, I("SCALAR"))
         log = (nest(I("SCALAR"), "input") + nest(I("INPUT_FIELD_DEFINITION"), "input") + nest(I("INPUT_OBJECT"), "input")
-               + nest(I("ARGUMENT_DEFINITION"), "argument") + nest(q + I("FIELD_DEFINITION"), "field", [("resolver", "f", "call")])
+               + nest(I("ARGUMENT_DEFINITION"), "argument") + nest(q + fdirs, "field", [("resolver", fname, "call")])
                + nest(I("SCALAR"), "output"))
-        return [{"f": out}], [nest(I("SCHEMA"), "schema", log)]
+        return [{fname: out}], [nest(I("SCHEMA"), "schema", log)]
     if kind in ("y-literal", "y-variable"):
         fname = req["field"]
         leaf = compose("T:w", I("SCALAR"))
@@ -283,6 +291,10 @@ def requests():
             out.append({"kind": "x-variable", "text": "query($x: I) { f(x: $x) }", "vars": {"x": {"a": "v"}}, "query_dirs": qd})
             out.append({"kind": "x-nested-variable", "text": "query($a: Tag) { f(x: {a: $a}) }", "vars": {"a": "v"}, "query_dirs": qd})
             out.append({"kind": "y-variable", "field": "f", "text": "query($y: Tag) { f(y: $y) }", "vars": {"y": "w"}, "query_dirs": qd})
+            # the value comes from the SDL default / from a variable default: same stages, on every execution (each request runs twice)
+            out.append({"kind": "x-default", "field": "d", "text": "{ d }", "vars": None, "query_dirs": qd})
+            out.append({"kind": "x-literal", "field": "d", "text": '{ d(x: {a: "v"}) }', "vars": None, "query_dirs": qd})
+            out.append({"kind": "x-variable", "field": "d", "text": 'query($x: I = {a: "v"}) { d(x: $x) }', "vars": None, "query_dirs": qd})
             out.append({"kind": "y-literal", "field": "g", "text": '{ g(y: "w") }', "vars": None, "query_dirs": qd})
             out.append({"kind": "y-variable", "field": "g", "text": "query($y: Tag) { g(y: $y) }", "vars": {"y": "w"}, "query_dirs": qd})
             out.append({"kind": "list-literal", "text": '{ os { h(y: "w") } }', "vars": None, "query_dirs": qd})
@@ -302,7 +314,7 @@ def requests():
     return out
 
 
-REJECT_KINDS = ("x-literal", "x-variable", "x-nested-variable", "y-literal", "y-variable", "enum-literal", "enum-variable")
+REJECT_KINDS = ("x-literal", "x-variable", "x-nested-variable", "x-default", "y-literal", "y-variable", "enum-literal", "enum-variable")
 
 
 def rejection_clause(p, req, rej, resp, log, logs):
@@ -360,13 +372,16 @@ def run_shard(item):
         if len(set(p)) < len(p):
             out["counts"]["nontrivial"] += 1
         for req in reqs:
-            scn = Scenario(root={})
-            resp = harness.execute(eng, req["text"], scn, variables=req["vars"])
-            out["counts"]["evaluations"] += 1
             datas, logs = expected(p, req)
-            log = [e for e in scn.events if isinstance(e, tuple) and len(e) == 3 and e[0] != "hook"]
-            out["counts"]["hooks_observed"] += len(log)
             clause = None
+            for rnd in range(2):  # "once per execution": the second execution of a request runs the same stages again
+                scn = Scenario(root={})
+                resp = harness.execute(eng, req["text"], scn, variables=req["vars"])
+                out["counts"]["evaluations"] += 1
+                log = [e for e in scn.events if isinstance(e, tuple) and len(e) == 3 and e[0] != "hook"]
+                out["counts"]["hooks_observed"] += len(log)
+                if resp.get("errors") or resp.get("data") not in datas or log not in logs:
+                    break
             if resp.get("errors") or resp.get("data") not in datas:
                 clause = "value-seen-differs"
             elif log not in logs:
